@@ -23,6 +23,7 @@ typedef struct { uint8_t kind; uint32_t a, b, c; } WCb;
 struct WObs {
     int    ntx;  WFrame tx[W_MAX_TX];  int tx_lost;      /* frames the stack handed to Send (accepted) */
     int    ntxfail;                                      /* Send calls that the driver failed          */
+    int    nrefused;  int refused_pos[4];  WFrame refused[4];   /* frames of Send calls refused through send_refuse_nth, with OBS.ntx at that moment */
     int    ncb;  WCb cb[W_MAX_CB];     int cb_lost;
     int    fatal;                                        /* CONodeFatalError calls                     */
     int    nvm_calls;
@@ -36,6 +37,7 @@ struct WDrv {
     int       rx_error;                  /* next Read returns -1 */
     int       can_active;  uint32_t baud;
     int       send_fail;                 /* the next <send_fail> Send calls return -1 */
+    int       send_refuse_nth;           /* k>0: the k-th Send call from now returns 0 (busy), once; the refused frame is kept in OBS.refused */
     /* timer: same contract as tests/integration/driver/drv_timer_swcycle.c */
     uint32_t  tcnt;  uint32_t freq;
     int       lock_depth;
